@@ -81,6 +81,71 @@ def check(ctx, P, funcs, rule="R-MEMOKEY"):
     return n_cand
 
 
+def check_memoparam(ctx, P, funcs, rule="R-MEMOKEY"):
+    """Path form of R-MEMOKEY (whatever the shape of the guard): a member function that takes parameters returns a data
+    member R; R is written in the function on a path that has read a parameter; and some `return R` is reachable without
+    any parameter having been read and without R having been written on the way (a cached return whose guard cannot depend
+    on the argument).  The value computed for the first argument is then handed out for every later one."""
+    from engine.cfg import forward, state_before, TOP
+    n_cand = 0
+    for f in sorted(funcs, key=lambda x: (x.file, x.l0)):
+        if f.dep or not f.cls or f.cfg() is None or not f.r["params"]:
+            continue
+        params = set(f.r["params"])
+        rets = [(r, _field_of(f, r["c"][0])) for r in f.nodes() if r["k"] == "ReturnStmt" and r.get("c") and r["c"][0] is not None]
+        fields = {fl for _, fl in rets if fl}
+        if not fields:
+            continue
+
+        def writes_field(e, fl):
+            if e["k"] in ("BinaryOperator", "CXXOperatorCallExpr") and e.get("op") == "=":
+                l = call_args(e)[0] if e["k"] == "CXXOperatorCallExpr" else e["c"][0]
+                if _field_of(f, l) == fl:
+                    return True
+            if e["k"] == "CXXMemberCallExpr" and (f.decl(e) or {}).get("n") in ("reset", "push_back", "insert", "emplace_back", "assign", "emplace"):
+                if _field_of(f, member_call_object(e)) == fl:
+                    return True
+            return False
+        for fl in sorted(fields):
+            def tr(st, e, blk):
+                if e["k"] == "DeclRefExpr" and e.get("d") in params:
+                    st = st | {"p"}
+                if writes_field(e, fl):
+                    st = st | {"w"} | ({"wp"} if "p" in st else set())
+                return st
+            cfg = f.cfg()
+            # may-analysis for "written after a parameter was read", must-analysis for the cached return
+            ins_may, _ = forward(cfg, frozenset(), tr, join=lambda a, b: a | b)
+            ins_must, _ = forward(cfg, frozenset(), tr)
+            dep = False
+            for r, rf in rets:
+                if rf != fl:
+                    continue
+                st = state_before(cfg, ins_may, tr, r)
+                if st is not TOP and "wp" in st:
+                    dep = True
+            if not dep:
+                continue
+            n_cand += 1
+            ctx.analysed(f)
+            cached = []
+            for r, rf in rets:
+                if rf != fl:
+                    continue
+                st = state_before(cfg, ins_must, tr, r)
+                if st is not TOP and "p" not in st and "w" not in st:
+                    cached.append(r)
+            ok = not cached
+            ctx.ob(rule, "%s: `%s`, computed from a parameter, is never handed out without looking at the parameter" % (short(f), fl), ok,
+                   f.loc(cached[0]) if cached else f.loc(),
+                   "every return of the member has read the parameter or has just written the member" if ok else
+                   "`%s` is reachable without reading any parameter and without refreshing `%s`, although the member is filled "
+                   "from the parameter(s) %s elsewhere in the function: the value computed for the first argument is returned "
+                   "for every later one" % (expr_str(f, cached[0]["c"][0])[:50], fl,
+                                            sorted({f.unit.decl(p)["n"] for p in params})))
+    return n_cand
+
+
 LOOPS = ("ForStmt", "WhileStmt", "DoStmt", "CXXForRangeStmt")
 
 
